@@ -35,6 +35,8 @@ def run(chk):
     chk.rule("POLY.measure", "GetClosestPointOnSegment (used to pull an out-of-scanbeam intersection back onto a nearly horizontal edge - a branch taken for one "
              "placement of a figure and not for its transpose or mirror image), CrossProduct, DotProduct, DistanceSqr and PerpendicDistFromLineSqrd are their "
              "defining polynomials: the returned point minus offPt is perpendicular to the segment and lies on its line (engine E14)")
+    chk.rule("SORTED.invalidate", "every public method that may add local minima invalidates the sorted flag, which becomes true only after a sort: paths added after "
+             "an Execute are swept in y order whatever the order they were added in")
     chk.rule("POLY.topx", "TopX is the x of the line through bot and top at the given y (with dx = GetDx(bot, top) as SetDx stores it); every shortcut "
              "return agrees with the general formula under its guard (identity of polynomial normal forms)")
     chk.rule("T.symmetry", "T(Positive, wc, wc2) == T(Negative, -wc, -wc2); NonZero invariant under negation; T independent of own path "
@@ -78,6 +80,13 @@ def run(chk):
         e3.ip_on_edge_rule(db, chk, cfg)
         e14.rule_topx(db, chk, cfg)
         e14.rule_measure(db, chk, cfg)       # GetClosestPointOnSegment: only reached for some placements / orientations of the same figure
+        from ..engines import e2_state as _e2s
+        from .c12 import _public_methods as _pubm
+        for _cls in (["ClipperBase", "Clipper64"], ["ClipperBase", "ClipperD"]):
+            # the result must not depend on the order in which paths were handed over - also when some arrive after an Execute
+            if _e2s.rule_sorted_flag(_e2s.E2(db, chk, cfg, _cls), chk, cfg, _pubm(db, set(_cls))) < 6:
+                from ..extract import AnalysisBroken as _AB13
+                raise _AB13("SORTED.invalidate: fewer than 6 instances")
     chk.floor("T.symmetry", 1700 * len(cfgs))
     chk.floor("T.comparator", 1600 * len(cfgs))
     chk.exhaustive = True
